@@ -29,6 +29,15 @@ func edgeByte() *rapid.Generator[byte] {
 func GUID() *rapid.Generator[guid.G] {
 	return rapid.Custom(func(t *rapid.T) guid.G {
 		var b [16]byte
+		switch rapid.IntRange(0, 39).Draw(t, "special") {
+		case 0:
+			return guid.G{} // the all-zero GUID
+		case 1:
+			for i := range b {
+				b[i] = 0xff
+			}
+			return guid.FromBE(b[:])
+		}
 		if rapid.Bool().Draw(t, "uniform") {
 			for i := range b {
 				b[i] = rapid.Byte().Draw(t, "b")
